@@ -179,6 +179,9 @@ var c05CommentTexts = []string{
 	"a: 1\n\n# after a blank line\n",
 	"# lead\n\n# second lead paragraph\na: 1\n",
 	"a: 1 # la\nb: # lb\n  - x # lx\n",
+	"a: 1\n\n# p1\n\n# p2\n",       // 16: two comment paragraphs after a blank line
+	"a:\n  b: 1\n\n# p1\n\n\n# p2\n", // 17: the same below a nested map
+	"- 1\n\n# p1\n\n# p2\n",        // 18: the same below a sequence
 }
 
 func c05AllComments(n *CandidateNode) string {
